@@ -118,6 +118,7 @@ class Task:
         self.aborted = False
         self.vc: dict[int, int] = {self.tid: 0}
         self.busy_user = False  # set by the fake pool while inside a user task
+        self.daemon = kind == "daemon"  # excluded from completion / deadlock detection
         self.thread = threading.Thread(
             target=self._boot, daemon=True, name=f"sim-{name}"
         )
@@ -291,6 +292,12 @@ class Sim:
         self.choices.append(idx)
         return idx
 
+    def draw(self, n: int) -> int:
+        """A nondeterministic choice made by a simulated component (message
+        matching, eager vs synchronous send, ...): recorded and replayed exactly
+        like a scheduling choice."""
+        return self._choose(n) if n > 1 else 0
+
     def run(self, main_fn, *args, name: str = "main", **kwargs) -> str:
         global _CURRENT
         if _CURRENT is not None:
@@ -302,11 +309,12 @@ class Sim:
         try:
             self.main = self.spawn(name, main_fn, *args, kind="main", **kwargs)
             while True:
-                live = [t for t in self.tasks if t.state not in ("done", "killed")]
+                alive = [t for t in self.tasks if t.state not in ("done", "killed")]
+                live = [t for t in alive if not t.daemon]
                 if not live:
                     self.verdict = Verdict.COMPLETE
                     break
-                runnable = [t for t in live if t.cond is None or t.cond()]
+                runnable = [t for t in alive if t.cond is None or t.cond()]
                 if not runnable:
                     self.verdict = Verdict.DEADLOCK
                     self.blocked_report = [
